@@ -173,7 +173,9 @@ class Ctx:
         lengths itself, and long fixed-length strings make satisfiable checks slow)"""
         if self.ghost.get('speculating', 0):
             self.ghost.setdefault('spec_defs', []).append((c, lenfact))
-        self.assume(c, solver=not lenfact)
+        # (with the sequence abstraction of the path solver a length fact is a cheap linear fact about
+        # LEN!abs(term); PYVC_LENFACT=0 restores the old behaviour of withholding it)
+        self.assume(c, solver=(not lenfact) or os.environ.get('PYVC_LENFACT', '1') == '1')
 
     def weak(self, c):
         """the formula the path solver sees: byte-string content abstracted (abstract.py)"""
@@ -1061,6 +1063,21 @@ class Interp:
             seq = list(it.items)
         else:
             seq = None
+        if seq is not None and spec is not None and spec.get('abstract') and len(seq) > 1:
+            # a loop over a concrete sequence treated by its invariant (one symbolic iteration instead
+            # of len(seq) unrolled ones): the element is selected by a symbolic index
+            idx = '__i%d' % k
+            env.vars[idx] = 0
+            n_ = len(seq)
+
+            def cond(e):
+                return zint(e.vars[idx]) < n_
+
+            def step(e):
+                self.assign(target, self.select_by_index(e.vars[idx], seq), e)
+                e.vars[idx] = zint(e.vars[idx]) + 1
+            return self.loop_with_invariant(key, k, spec, env, body, cond, step, node, index_var=idx,
+                                            bounds=(0, n_))
         if seq is not None:
             for x in seq:
                 self.assign(target, x, env)
@@ -1103,6 +1120,19 @@ class Interp:
                                      bounds=(0, None))
         else:
             raise Unsupported(f'loop {key}#{k}: iteration over {type(it).__name__}')
+
+    def select_by_index(self, i, seq):
+        """seq[i] for a symbolic index i into a concrete python sequence"""
+        if all(isinstance(x, tuple) for x in seq) and len({len(x) for x in seq}) == 1:
+            return tuple(self.select_by_index(i, [x[p] for x in seq]) for p in range(len(seq[0])))
+        if all((isinstance(x, int) and not isinstance(x, bool)) or is_sym_int(x) for x in seq):
+            r = zint(seq[-1])
+            for j in range(len(seq) - 2, -1, -1):
+                r = z3.If(zint(i) == j, zint(seq[j]), r)
+            return r
+        if all(isinstance(x, str) for x in seq):
+            return self.models.senum_str(SEnum(zint(i), dict(enumerate(seq))))
+        return SEnum(zint(i), dict(enumerate(seq)))
 
     def as_range(self, it):
         if isinstance(it, range):
@@ -1158,11 +1188,11 @@ class Interp:
 
     def check_invariant(self, spec, env, name, index_var):
         for label, c in self.eval_clauses(spec.get('inv'), env, index_var):
-            self.ctx.oblige(f'{name}/{label}', c, 'inv')
+            self.ctx.oblige(f'{name}/{label}', self.cval(c), 'inv')
 
     def assume_invariant(self, spec, env, index_var):
         for label, c in self.eval_clauses(spec.get('inv'), env, index_var):
-            self.ctx.assume(c)
+            self.ctx.assume(self.cval(c))
 
     def eval_clauses(self, f, env, index_var):
         if f is None:
@@ -1176,8 +1206,15 @@ class Interp:
         if isinstance(res, (list, tuple)):
             if not all(isinstance(x, tuple) and len(x) == 2 and isinstance(x[0], str) for x in res):
                 raise Unsupported('a contract clause list must consist of (concrete label, condition) pairs')
-            return [(l, self.truth(c)) for l, c in res]
+            # a clause given as a lambda is evaluated when it is used (cval): after the clauses before it
+            # have been assumed, so that it can rely on them (e.g. a length stated first)
+            return [(l, LazyClause(c) if isinstance(c, AstFunc) else self.truth(c)) for l, c in res]
         return [('c', self.truth(res))]
+
+    def cval(self, c):
+        if isinstance(c, LazyClause):
+            return self.truth(self.call(c.f, [], {}))
+        return c
 
     def eval_variant(self, spec, env, index_var):
         f = spec.get('variant')
@@ -1209,7 +1246,11 @@ class Interp:
             if not found:
                 raise Unsupported(f'sidecar function {f.name}: no local variable {p}')
             args.append(v)
-        return self.call_ast(f, args, {})
+        try:
+            return self.call_ast(f, args, {})
+        except PyRaise as r:
+            # an error inside contract text is never program behaviour
+            raise Unsupported(f'sidecar function {f.name} raised {r.cls.__name__}: {getattr(r.value, "args", "")}')
 
     def havoc_loop(self, spec, env, node, index_var):
         from .heap import havoc_value, havoc_inplace, snapshot
@@ -1298,6 +1339,16 @@ class Interp:
                 if base is None:
                     raise Unsupported(f'loop body: cannot map modifies path {m} of {key}')
                 full = base + ('.' + rest if rest else '')
+                if full.split('.')[0] in assigned:
+                    # an object bound inside the loop body: not loop-carried state -- provided every
+                    # binding of that name in the body is a constructor call (a fresh object, no alias)
+                    nm_ = full.split('.')[0]
+                    for a_ in ast.walk(ast.Module(body=node.body, type_ignores=[])):
+                        if isinstance(a_, ast.Assign) and any(isinstance(t_, ast.Name) and t_.id == nm_ for t_ in a_.targets):
+                            v_ = a_.value
+                            if not (isinstance(v_, ast.Call) and isinstance(v_.func, ast.Name) and v_.func.id[:1].isupper()):
+                                raise Unsupported(f'loop body mutates {full} through a local that may alias outer state')
+                    continue
                 o = val(full)
                 if isinstance(o, (ZList, HDict, list)):
                     add_obj(full)
@@ -1587,11 +1638,11 @@ class Interp:
         return self.models.delitem(self, self.resolve(o), k)
 
     def ev_UnaryOp(self, e, env):
-        v = self.resolve(self.ev(e.operand, env))
         op = type(e.op).__name__
         if op == 'Not':
-            t = self.truth(v)
+            t = self.truth(self.ev(e.operand, env))      # (truth() decides a dynamically typed value without a fork)
             return (not t) if isinstance(t, bool) else z3.Not(t)
+        v = self.resolve(self.ev(e.operand, env))
         if op == 'USub':
             if is_concrete(v):
                 return -v
@@ -1660,6 +1711,12 @@ class Interp:
             cb = sym.concrete_bool(c)
             if cb is not None:
                 c = cb
+        if not isinstance(c, bool) and self.ctx.ghost.get('lemma_mode') and not self.ctx.ghost.get('speculating', 0):
+            # lemma mode keeps control flow concrete wherever the path condition decides it
+            if self.ctx.valid(c):
+                c = True
+            elif self.ctx.valid(z3.Not(c)):
+                c = False
         if isinstance(c, bool):
             return self.ev(e.body if c else e.orelse, env)
         # try ite merge
@@ -1924,6 +1981,19 @@ class Interp:
         if f.key in self.ctx.ghost.get('inline_extra', ()):
             pol = 'inline'
         if pol == 'inline':
+            c_ = self.reg.get(f.key) if self.reg else None
+            if c_ is not None and c_.loops_decl and self.ctx.ghost.get('lemma_mode'):
+                # a function with loop invariants executed from its body inside a lemma: the invariants
+                # speak about `old`, the state at THIS call
+                from .apply import Old
+                from .heap import snapshot
+                params = self.bind_args(f, args, kwargs)
+                saved = self.ctx.ghost.get('old')
+                self.ctx.ghost['old'] = Old(snapshot(dict(params)))
+                try:
+                    return self.call_ast(f, args, kwargs)
+                finally:
+                    self.ctx.ghost['old'] = saved
             return self.call_ast(f, args, kwargs)
         if pol == 'contract':
             from .apply import apply_contract
@@ -1951,6 +2021,11 @@ class _Method:
     def __init__(self, obj, name):
         self.obj = obj
         self.name = name
+
+
+class LazyClause:
+    def __init__(self, f):
+        self.f = f
 
 
 class _SymRange:
